@@ -80,8 +80,12 @@ func (x *c03Ctx) class(c string) { x.classes[c]++ }
 
 // tailBytes builds the bytes that follow the cut in the image.
 func (x *c03Ctx) tailBytes(cut int64, kind int) []byte {
-	r := verifJMix(x.seed, uint64(cut)*16+uint64(kind))
-	old := int64(len(x.h.J)) - cut
+	return c03TailBytes(x.h.J, x.seed, cut, kind)
+}
+
+func c03TailBytes(J []byte, seed uint64, cut int64, kind int) []byte {
+	r := verifJMix(seed, uint64(cut)*16+uint64(kind))
+	old := int64(len(J)) - cut
 	switch kind {
 	case c03TailDropped:
 		return nil
@@ -111,7 +115,10 @@ func (x *c03Ctx) tailBytes(cut int64, kind int) []byte {
 // manifestFor picks the manifest that was on disk when the journal had exactly `cut` bytes on
 // its way to growing: the steps whose recorded journal size is the largest one <= cut.
 func (x *c03Ctx) manifestFor(cut int64, r *verifJRng) (man []byte, snapIdx int) {
-	h := x.h
+	return c03ManifestFor(x.h, cut, r)
+}
+
+func c03ManifestFor(h *verifJHist, cut int64, r *verifJRng) (man []byte, snapIdx int) {
 	var best int64 = -1
 	for _, s := range h.snaps {
 		if s.jsize <= cut && s.jsize > best {
